@@ -1,6 +1,7 @@
 """Phases other than behaviour generation + replay."""
 from __future__ import annotations
 
+import json
 import os
 
 from . import tlc
@@ -591,12 +592,8 @@ def phase_flat(ctx, phase):
     return d
 
 
-def _cross_replay_join(seed, cex):
-    """replays a design-level join counterexample on Polars and SQLite; None if they agree"""
-    from . import compare as CMP
-    from .replay import Replayer, exc_class
-
-    rp = Replayer(seed)
+def _run_join(rp, cex):
+    """executes a two-sided join scenario of MC_SqlFlatJoin on Polars and SQLite: ({backend: frame | exception class}, moves)"""
     R = rp.R
     res = {}
     moves = []
@@ -610,27 +607,41 @@ def _cross_replay_join(seed, cex):
         cur = {1: 1, 2: 2}
         nid = 100
         moves = []
+        at = "pre"
         try:
             for m in cex["pre"]:
                 side = m["i"]
                 mm = dict(m, i=cur[side])
+                moves.append(mm)
                 t2 = R.apply_move(mm, heap, colmap)
                 heap.append(t2)
                 cur[side] = len(heap)
-                moves.append(mm)
-                if m["v"] == "mutate":
-                    colmap[nid] = t2[m["kv"][0]["n"]]
-                    nid += 1
+                if m["v"] in ("mutate", "summarize"):
+                    for kv in m["kv"]:
+                        colmap[nid] = t2[kv["n"]]
+                        nid += 1
+            at = "join"
             jm = dict(v="join", i=cur[1], j=cur[2], how=cex["how"], suffix="_r",
                       on=[dict(k="fn", op="eq", a=[dict(k="col", id=S_col_id(sl, 0)), dict(k="col", id=S_col_id(sr, 0))])])
             moves.append(jm)
-            res[bk] = R.apply_move(jm, heap, colmap) >> R.export(R.pdt.Polars())
+            joined = R.apply_move(jm, heap, colmap)
+            at = "export"
+            res[bk] = joined >> R.export(R.pdt.Polars())
         except Exception as e:  # noqa: BLE001
-            res[bk] = exc_class(e)
-    if isinstance(res["sqlite"], str):
-        return (None if res["sqlite"] in ("SubqueryError", "NotSupportedError") else f"SQLite raised {res['sqlite']}"), moves
-    if isinstance(res["polars"], str):
-        return f"Polars raised {res['polars']}", moves
+            from .replay import exc_class
+            res[bk] = (exc_class(e), at)
+    return res, moves
+
+
+def _cross_replay_join(rp, cex):
+    """replays a design-level join counterexample on Polars and SQLite; None if they agree"""
+    from . import compare as CMP
+
+    res, moves = _run_join(rp, cex)
+    if isinstance(res["sqlite"], tuple):
+        return (None if res["sqlite"][0] in ("SubqueryError", "NotSupportedError") else f"SQLite raised {res['sqlite'][0]}"), moves
+    if isinstance(res["polars"], tuple):
+        return f"Polars raised {res['polars'][0]}", moves
     dp, ds = res["polars"], res["sqlite"]
     if list(dp.columns) != list(ds.columns):
         return f"columns differ: {dp.columns} vs {ds.columns}", moves
@@ -639,30 +650,82 @@ def _cross_replay_join(seed, cex):
 
 
 def phase_flatjoin(ctx, phase):
-    """design level, joins: the merged SELECT of two accumulators vs the sequential meaning (MC_SqlFlatJoin.tla)"""
-    found = []
+    """design level, joins: the merged SELECT of two accumulators vs the sequential meaning (MC_SqlFlatJoin.tla);
+    second run: every reachable pair of side accumulators x join kind with the catalogue's decision, compared with the code's"""
+    from .replay import Replayer
+
+    rp = Replayer(ctx.seed)
+    found, decided = [], []
     states = distinct = 0
     for (ls, rs) in phase.get("pairs", [(1, 2), (6, 2)]):
-        d = tlc.prepare(f"{ctx.prop}-flatjoin-{ls}-{rs}-{os.getpid()}", ctx.seed)
-        tlc.write_model(d, "MC_SqlFlatJoin", dict(MaxPre=phase.get("pre", 2), LeftSrc=ls, RightSrc=rs), {}, view="View")
-        res = tlc.run(d, workers=8, timeout=phase.get("timeout", 600), on_json=found.append)
-        states += res["states"]
-        distinct += res["distinct"]
-        tlc.cleanup(d)
+        for emit_all in (False, True):
+            d = tlc.prepare(f"{ctx.prop}-flatjoin-{ls}-{rs}-{int(emit_all)}-{os.getpid()}", ctx.seed)
+            tlc.write_model(d, "MC_SqlFlatJoin", dict(MaxPre=phase.get("pre", 2), LeftSrc=ls, RightSrc=rs, EmitAll=emit_all), {}, view="View")
+            res = tlc.run(d, workers=8, timeout=phase.get("timeout", 600), on_json=(decided if emit_all else found).append)
+            states += res["states"]
+            distinct += res["distinct"]
+            tlc.cleanup(d)
     ctx.tlc_states += states
     ctx.tlc_distinct += distinct
-    ctx.tlc_runs.append(dict(profile="sqlflat-join", states=states, distinct=distinct, counterexamples=len(found), mode="bfs, design level"))
+    ctx.tlc_runs.append(dict(profile="sqlflat-join", states=states, distinct=distinct, counterexamples=len(found), decisions=len(decided), mode="bfs, design level"))
     confirmed = 0
     for cex in found:
-        why, moves = _cross_replay_join(ctx.seed, cex)
+        why, moves = _cross_replay_join(rp, cex)
         if why is not None:
             confirmed += 1
             ctx.failures.append(dict(clause="rows", backend="sqlite", step=len(moves) - 1, tainted=False, src=[cex["left"], cex["right"]], srcidx=0,
                                      detail="TLC (join accumulator): the catalogue accepts this join but the merged SELECT differs from the "
                                             "sequential meaning; confirmed on the real code: " + why,
                                      moves=moves, heap_obs=[], beh=cex))
-    ctx.extra["sqlflat_join"] = dict(counterexamples_predicted=len(found), confirmed_on_code=confirmed, drift=len(found) - confirmed)
-    ctx.behaviours += len(found)
-    ctx.replay_stats["steps_new"] = ctx.replay_stats.get("steps_new", 0) + sum(len(c["pre"]) + 1 for c in found)
-    ctx.replay_stats["nontrivial"] = ctx.replay_stats.get("nontrivial", 0) + len(found)
+    # decisions: the transcribed Join rules against the code's
+    from . import compare as CMP
+    agree = conservative = permissive_ok = other = 0
+    reasons = {}
+    seen = set()
+    for dc in decided:
+        key = json.dumps(dc, sort_keys=True)
+        if key in seen:
+            continue
+        seen.add(key)
+        res, moves = _run_join(rp, dc)
+        model_refuses = bool(dc["needL"] or dc["needR"])
+        reasons[dc["needL"] or dc["needR"] or "accepted"] = reasons.get(dc["needL"] or dc["needR"] or "accepted", 0) + 1
+        s = res["sqlite"]
+        code_refuses = isinstance(s, tuple) and s[0] == "SubqueryError" and s[1] == "join"
+        if isinstance(s, tuple) and not code_refuses:
+            if s[0] == "SubqueryError":      # a preparatory step was refused: outside this comparison
+                other += 1
+                continue
+            ctx.failures.append(dict(clause="export-error", backend="sqlite", step=len(moves) - 1, tainted=False, src=[dc["left"], dc["right"]], srcidx=0,
+                                     exc=s[0], detail=f"join scenario raised {s[0]} at {s[1]} on SQLite", moves=moves, heap_obs=[], beh=dc))
+            continue
+        if model_refuses == code_refuses:
+            agree += 1
+            continue
+        if code_refuses:
+            conservative += 1
+            continue
+        # the code accepts what the transcription refuses: it must then be right
+        pl = res["polars"]
+        why = None
+        if isinstance(pl, tuple):
+            why = f"Polars raised {pl[0]}"
+        elif list(pl.columns) != list(s.columns):
+            why = f"columns differ: {pl.columns} vs {s.columns}"
+        else:
+            r = CMP.compare_rows(CMP.frame_rows(pl), CMP.frame_rows(s), None, None)
+            why = None if r is None else "Polars vs SQLite: " + r[1][:300]
+        if why is None:
+            permissive_ok += 1
+        else:
+            ctx.failures.append(dict(clause="rows", backend="sqlite", step=len(moves) - 1, tainted=False, src=[dc["left"], dc["right"]], srcidx=0,
+                                     detail=f"the catalogue (spec) requires a subquery here ({dc['needL'] or dc['needR']}) but the code accepted "
+                                            "the join and the result is wrong: " + why,
+                                     moves=moves, heap_obs=[], beh=dc))
+    ctx.extra["sqlflat_join"] = dict(counterexamples_predicted=len(found), confirmed_on_code=confirmed, drift=len(found) - confirmed,
+                                     decisions=len(seen), decisions_agree=agree, code_more_conservative=conservative,
+                                     code_more_permissive_but_correct=permissive_ok, pre_step_refused=other, catalogue_decisions=reasons)
+    ctx.behaviours += len(found) + len(seen)
+    ctx.replay_stats["steps_new"] = ctx.replay_stats.get("steps_new", 0) + sum(len(c["pre"]) + 1 for c in found) + sum(len(c["pre"]) + 1 for c in decided)
+    ctx.replay_stats["nontrivial"] = ctx.replay_stats.get("nontrivial", 0) + len(found) + len(seen)
     return None
